@@ -19,19 +19,19 @@ RULE = (
     "followed by seeds on all expanded nodes, the full dump with node ids (spaces, depths, flags, successor lists, "
     "edge motif and motif-list ORDER, candidates, seeds, sets), summary() and repr() of the interventions of both "
     "control strategies are computed (a) twice in one process, (b) in fresh processes with PYTHONHASHSEED in "
-    "{0,1,2,31337,random}, (c) after a pollution prefix of unrelated diagrams (other networks, debug configuration, "
+    "{0,1,2,3,4,5,31337,random}, (c) after a pollution prefix of unrelated diagrams (other networks, debug configuration, "
     "symbolic fallback, limit errors) in the same process, and compared byte for byte. non-trivial = network whose "
     "BFS diagram has >= 4 nodes; distinct by rules; evaluations = dumps compared"
 )
 ASSUMPTIONS = ["lists whose order the docstrings leave open (successor lists, per-node seed lists) are sorted before comparison; everything else is compared literally"]
 DEADLINE = 900
 STRATS = ["build", "bfs", "dfs", "block", "scc", "min", "min_skip", "attr"]
-HASHSEEDS = ["0", "1", "2", "31337", "random"]
+HASHSEEDS = ["0", "1", "2", "3", "4", "5", "31337", "random"]
 
 
 def cases(tier, seed):
     rng = random.Random(f"C19/{seed}")
-    groups = 60 if tier == "quick" else 400
+    groups = 45 if tier == "quick" else 300
     cl = [("gadget", 5), ("inputs", 3), ("overlap-maa", 1), ("rand", 2), ("dense-neg", 1)]
     models = gen.models_up_to(12 if tier == "quick" else 16)
     out = []
@@ -90,15 +90,17 @@ def _compute(net, bb):
         sd = bb.make_sd(net)
         sd.expand_minimal_spaces(size_limit=200)
         mins = sd.minimal_trap_spaces()
-        if mins:
-            tgt = dict(sd.node_data(mins[0])["space"])
-            if tgt:
-                for st in ("internal", "all"):
-                    if st == "all" and len(net["names"]) > 8:
-                        continue
-                    sd2 = bb.make_sd(net)
-                    iv = succession_control(sd2, tgt, strategy=st, max_drivers_per_succession_node=2, successful_only=False)
-                    out["ctl:" + st] = repr(iv)
+        n = len(net["names"])
+        for mi, m in enumerate(mins[:3]):
+            tgt = dict(sd.node_data(m)["space"])
+            if not tgt:
+                continue
+            for st in ("internal", "all"):
+                if st == "all" and n > 7:
+                    continue
+                sd2 = bb.make_sd(net)
+                iv = succession_control(sd2, tgt, strategy=st, max_drivers_per_succession_node=None if n <= 6 else 2, successful_only=False)
+                out[f"ctl:{st}:{mi}"] = repr(iv) + "||" + "|".join(str(i) for i in iv)
     except Exception as e:
         out["ctl"] = f"EXC {type(e).__name__}: {e}"
     return out
